@@ -156,6 +156,8 @@ def behaviour(rec, b, table, rng, tier):
         # wiki-table shares the label domain minus '!' and '|'
         if not any('!' in x or '|' in x for x in objs + props):
             rec.dump('wiki-table', TR.read_wiki)
+            rec.dump('wikitable', TR.read_wiki, tag='alias')
+        rec.dump('TABLE', TR.read_table, tag='format-name-case')
     # -------------------------------------------------------------------- cxt
     elif k in (1, 4):
         objs, props = labels('cxt', n, m, rng)
@@ -165,6 +167,22 @@ def behaviour(rec, b, table, rng, tier):
             rec.load('cxt', text, 'own')
         rec.load('cxt', TR.write_cxt(objs, props, rows), 'writer')
         rec.load('cxt', TR.write_cxt(objs, props, rows) + '\n\n', 'writer', tag='trailing-blank')
+        # the default format of tofile() / fromfile() is cxt, the default encoding utf-8
+        try:
+            pth = os.path.join(rec.tmp, f'default{b}.bin')
+            rec.ctx.tofile(pth)
+            back = rec.C.Context.fromfile(pth)
+            with open(pth, encoding='utf-8', newline='') as fh:
+                ok_, o_, p_, cells_ = TR.read_cxt(fh.read())
+            os.unlink(pth)
+            rec.ev('t.dump', fmt='cxt', how='file', enc='utf-8', tag='default-format', out='ok', rd_ok=bool(ok_),
+                   objs=o_, props=p_, cells=cells_)
+            o2, p2, c2 = triple_of(back)
+            rec.ev('t.load', fmt='cxt', origin='own', how='file', enc='', tag='default-format', via='Context.fromfile',
+                   out='ok', objs=o2, props=p2, cells=c2, eq=bool(back == rec.ctx))
+        except Exception as exc:
+            rec.ev('t.load', fmt='cxt', origin='own', how='file', enc='', tag='default-format', via='Context.fromfile',
+                   out=type(exc).__name__, objs=[], props=[], cells=[], eq=False)
         for enc in ('utf-8', 'utf-16'):
             t2 = rec.dump('cxt', TR.read_cxt, how='file', enc=enc)
             if t2 is not None:
